@@ -53,6 +53,31 @@ def main():
                A.DataSegment("active", b"zero", I("i32.const", 3), 0)]
     m.exports = [A.Export(b"m2", "memory", 2), A.Export(b"m1", "memory", 1), A.Export(b"m0", "memory", 0)] + m.exports
     mods.append(("memories-three-reverse-exports.json", "three defined memories (the second with 0 pages), exported as m2, m1, m0", m, {"globals": {}}, calls))
+    # 4.-6. NewChild families (child, grandchild) over modules with several memories of which some are SHARED: a child's shared defined
+    # memory is the parent's memory of the SAME module index (`i->m1 = parent->m1`), its unshared ones are fresh, the imported memory is
+    # the embedder's — and the data segments of memory k, applied again by the child, land in memory k
+    m, calls = base()
+    m.imports = [A.Import(b"env", b"mem", "memory", A.Limits(1, 2))]
+    m.mems = [A.Limits(1, 1, shared=True)]
+    m.datas = [A.DataSegment("active", b"OWN!", I("i32.const", 16), 1, enc_flag=2), A.DataSegment("active", b"imp", I("i32.const", 3), 0)]
+    m.exports = [A.Export(b"own", "memory", 1), A.Export(b"mem", "memory", 0)] + m.exports
+    mods.append(("memories-imported-and-own-shared.json", "(import \"env\" \"mem\" (memory 1 2)) pre-filled with 'HOST' at 16, (memory $own 1 1 shared) "
+                 "with 'OWN!' at 16: a NewChild child's own memory is the parent's own memory (not the imported one), the imported memory keeps "
+                 "'HOST'", m, {"globals": {}, "mem_fill": {"0": [[16, "484f5354"]]}}, calls))
+    m, calls = base()
+    m.mems = [A.Limits(1, 2, shared=True), A.Limits(2, 2, shared=True), A.Limits(1, 1)]
+    m.datas = [A.DataSegment("active", b"second shared", I("i32.const", 65536 + 5), 1, enc_flag=2), A.DataSegment("active", b"third", I("i32.const", 9), 2, enc_flag=2),
+               A.DataSegment("active", b"first", I("i32.const", 3), 0)]
+    m.exports = [A.Export(b"c", "memory", 2), A.Export(b"b", "memory", 1)] + m.exports + [A.Export(b"a", "memory", 0)]
+    mods.append(("memories-two-shared-one-private.json", "two defined SHARED memories and a private one: a child shares memories 0 and 1 with its "
+                 "parent (each with the parent's memory of the same index) and gets a fresh memory 2", m, {"globals": {}}, calls))
+    m, calls = base()
+    m.imports = [A.Import(b"env", b"mem", "memory", A.Limits(1, 2, shared=True))]
+    m.mems = [A.Limits(2, 3, shared=True)]
+    m.datas = [A.DataSegment("active", b"OWN!", I("i32.const", 70000), 1, enc_flag=2)]
+    m.exports = [A.Export(b"own", "memory", 1)] + m.exports + [A.Export(b"mem", "memory", 0)]
+    mods.append(("memories-imported-shared-and-own-shared.json", "an imported SHARED memory and a defined shared memory (no data segment in memory 0: "
+                 "NewChild must leave the imported memory as it is)", m, {"globals": {}, "mem_fill": {"0": [[16, "484f5354"]]}}, calls))
     for fn, note, m, imp, calls in mods:
         s = dict(note=note, hex=encode(m).hex(), imports_spec=imp, calls=[[n.hex(), [[t, b] for t, b in a]] for n, a in calls])
         with open(os.path.join(out, fn), "w") as f:
